@@ -307,18 +307,7 @@ End CoreInd.
 Definition plain_vars (ns : list (list N)) (ls : list loc) : list ventry :=
   map (fun pl => mkV (fst pl) (snd pl) RNone false) (combine ns ls).
 
-(* cgLocalVarDeclStat for (length es <= length names): entries in the order they are added *)
-Fixpoint local_vars (es : list exp) (nls : list (list N * loc)) (lastcall : refexp) {struct es} : list ventry :=
-  match es with
-  | [] => map (fun nl => mkV (fst nl) (snd nl) lastcall (match lastcall with RNone => true | _ => false end)) nls
-  | e :: es' =>
-    match nls with
-    | [] => []
-    | (n, nl) :: nls' =>
-      mkV n nl (ref_of_exp e) (refer_empty n e)
-          :: local_vars es' nls' (match e with ECall _ _ _ _ => ref_of_exp e | _ => RNone end)
-    end
-  end.
+(* cgLocalVarDeclStat: the entries in the order they are added = Scope.local_vars (Model/Scope.v) *)
 
 (* cond_1 block_1 cond_2 block_2 ... *)
 Fixpoint zip_if {A} (cs bls : list (list A)) {struct cs} : list A :=
